@@ -12,7 +12,7 @@ from .c12 import SETTING_KEYS, agree, source_type
 from .c13 import ancestors, stmt_of
 from .common import loc
 from .jsonio import ReaderRecord, WriterRecord, check_typed_fields, check_writer_schema, load_schemas
-from .pbnio import VALUE_ALPHABET_SAMPLES, fold_parse_board, parser_constants, separator_pattern
+from .pbnio import VALUE_ALPHABET_SAMPLES, check_line_source, fold_parse_board, parser_constants, separator_pattern
 
 
 def run(chk):
@@ -32,6 +32,8 @@ def run(chk):
     check_writer_schema(chk, 'C17.R1', rec, 'board_setting_format.schema.json', ['properties', 'board_settings', 'items'], schemas)
     setting = ReaderRecord(repo, 'convert_board_setting', 'BoardSetting', 'C17.R1')
     check_typed_fields(chk, 'C17.R1', setting)
+    from .jsonio import check_truthiness
+    check_truthiness(chk, 'C17.R1', repo)
     from .jsonio import check_converters
     check_converters(chk, 'C17.R1', repo, setting.m, setting.qual, setting.fields, setting.annots)
     for fld, expr in setting.fields.items():
@@ -78,6 +80,7 @@ def run(chk):
                     'a game is yielded only if it has content (no empty game for blank-line runs / leading / trailing blank lines)',
                     f'`yield {ast.unparse(val) if val else ""}` is not guarded by a non-emptiness test: a leading blank line or a run of blank '
                     f'lines yields an empty game and parse_board_settings fails on it')
+    check_line_source(chk, 'C17.R3', repo)
     # R3 separator class
     fm = re.fullmatch if func == 're.fullmatch' else re.match
     blanks = ['\n', '\r\n', ' \n', '\t\n', '  \t \r\n', ' ']
